@@ -856,7 +856,7 @@ var ptrTokens = []string{"", "a", "~", "/", "~0", "~1", "~01", "a/b", "a~b", "é
 
 func generate(w *run.W) {
 	scripts := []string{"T", "V", "S", "TV", "TS", "TTV", "TTTS", "TVS", "TTTTV"}
-	nb := w.Pick(5000, 40000)
+	nb := w.Pick(20000, 80000)
 	for b := 0; b < nb; b++ {
 		if !w.Mine(b) {
 			continue
